@@ -30,7 +30,7 @@ ASSUMPTIONS = [
     "dns.message.time is replaced by a virtual clock",
     "a flipped bit the reference still authenticates (message ID, ASCII case of key/algorithm name letters) may be accepted",
 ]
-REQUIRED = ["mon.direct_renderer_signing", "mon.mac_equals_reference", "mon.lib_accepts_own", "mon.ref_accepts_lib", "mon.lib_accepts_ref_sequence", "mon.bitflip", "mon.fault_rejected", "mon.multi_envelope"]
+REQUIRED = ["mon.continuation_names_another_key", "mon.direct_renderer_signing", "mon.mac_equals_reference", "mon.lib_accepts_own", "mon.ref_accepts_lib", "mon.lib_accepts_ref_sequence", "mon.bitflip", "mon.fault_rejected", "mon.multi_envelope"]
 BUDGET = {"quick": 45.0, "thorough": 480.0}
 
 ALGS = list(RT.ALGS)
@@ -370,6 +370,50 @@ def check_sequence(ctx, rng, algtext):
                 vctx = m2.tsig_ctx
             if not failed:
                 ctx.violation("sequence-with-dropped-unsigned-envelope-accepted", f"mask {unsigned_mask}", case)
+        # (d) a continuation envelope whose TSIG names ANOTHER key of the keyring (or, with a keyring of bare secrets, another
+        # algorithm): the digest of a continuation does not cover the key name or the algorithm, so only the binding of the
+        # exchange to the key it started with rejects it
+        ctx.count("mon.continuation_names_another_key")
+        kl2 = (kl[0] + b"x",) + tuple(kl[1:]) if rng.random() < 0.5 else (bytes([kl[0][0] ^ 0x02]) + kl[0][1:],) + tuple(kl[1:])
+        secret2 = bytes(rng.randrange(256) for _ in range(16))
+        other_alg = rng.choice([a for a in ("hmac-sha256.", "hmac-sha512.", "hmac-sha1.") if a != algtext])
+        for variant in ("other-key-name", "other-algorithm-bare-secret-keyring"):
+            if variant == "other-key-name":
+                ring = {dns.name.Name(kl): key, dns.name.Name(kl2): dns.tsig.Key(dns.name.Name(kl2), secret2, dns.name.from_text(algtext))}
+            else:
+                ring = {dns.name.Name(kl): secret}
+            last_w, _ = seq[-1]
+            sp = RT.Split(last_w)
+            base = last_w[:10] + struct.pack("!H", struct.unpack("!H", last_w[10:12])[0] - 1) + last_w[12:sp.tsig_start]
+            # same MAC, same times, same original id; only the owner (or the algorithm field) differs
+            if variant == "other-key-name":
+                forged = RT.append_tsig(base, kl2, RT.tsig_rdata(sp.algname, sp.time_signed, sp.fudge, sp.mac, sp.orig_id, sp.error, sp.other))
+            else:
+                forged = RT.append_tsig(base, kl, RT.tsig_rdata(RT.alg_labels(other_alg), sp.time_signed, sp.fudge, sp.mac, sp.orig_id, sp.error, sp.other))
+            vctx = None
+            failed_early = False
+            for i, (w, signed) in enumerate(seq[:-1]):
+                try:
+                    with swap_attr(dns.message, "time", clock):
+                        m2 = dns.message.from_wire(w, keyring=ring, request_mac=req_mac if i == 0 else b"", multi=True, tsig_ctx=vctx)
+                except Exception as e:
+                    failed_early = True
+                    if variant == "other-key-name":
+                        ctx.violation(f"genuine-multi-envelope-rejected:dict-keyring:{algtext}:" + core.exc_sig(e), f"envelope {i}: {e!r}", dict(case, wire=w))
+                    break
+                vctx = m2.tsig_ctx
+            if failed_early:
+                continue
+            try:
+                with swap_attr(dns.message, "time", clock):
+                    m2 = dns.message.from_wire(forged, keyring=ring, multi=True, tsig_ctx=vctx)
+                ctx.violation(f"altered-or-foreign-message-accepted:continuation-envelope-{variant}", f"exchange started with key {RN.to_text(kl)} {algtext}; envelope {n - 1} accepted as signed by {m2.keyname} {m2.keyalgorithm}", dict(case, wire=forged))
+                return
+            except dns.exception.DNSException:
+                ctx.count("mon.fault_rejected")
+            except Exception as e:
+                ctx.violation(f"continuation-envelope-{variant}-raised-foreign:" + core.exc_sig(e), repr(e), dict(case, wire=forged))
+                return
         ctx.seen(("seq", algtext, n, tuple(unsigned_mask)))
     except Exception as e:
         ctx.violation(f"tsig-sequence-raised:{algtext}:" + core.exc_sig(e), repr(e), case)
